@@ -218,6 +218,7 @@ func C06(c *fw.Ctx) {
 		}
 		acceptedWorkload(c, c.Pick(1, 8), e)
 		multiFault(c, c.Pick(3000, 60000), e)
+		faultyTypeCycles(e)
 		macroGraphs(c, e)
 		// builds that reuse Option values: [A], [A,B], [A] in one process - the first and the third build are the same project with the
 		// same options and must give the same result
@@ -379,4 +380,56 @@ func C06(c *fw.Ctx) {
 		}
 	})
 	c.Finish()
+}
+
+// faultyTypeCycles: four user types in a legal cycle (every reference optional): @f1 -> @f2 -> @u -> @t -> @f1, @u and @t also name
+// @f1 and @f2; two of the four have a fault of their own (a value below its min). Which of the two faults is reported must not
+// change from build to build - whatever the order of the declarations (all 24) and whichever two types are faulty (6 pairs): the
+// types are assembled in the order of their declarations, and a type that is finished while types it holds are not yet finished is
+// where an error found "inside an unfinished type" has to be left to that type (D29, D37, round 10).
+func faultyTypeCycles(emit emitFn) {
+	names := []string{"f1", "f2", "u", "t"}
+	refs := map[string][]string{"f1": {"f2"}, "f2": {"u"}, "u": {"t", "f1", "f2"}, "t": {"f1", "f2"}}
+	perms := [][]int{}
+	var rec func(cur []int, used int)
+	rec = func(cur []int, used int) {
+		if len(cur) == 4 {
+			perms = append(perms, append([]int(nil), cur...))
+			return
+		}
+		for i := 0; i < 4; i++ {
+			if used&(1<<uint(i)) == 0 {
+				rec(append(cur, i), used|1<<uint(i))
+			}
+		}
+	}
+	rec(nil, 0)
+	n := 0
+	for a := 0; a < 4; a++ {
+		for b := a + 1; b < 4; b++ {
+			for _, p := range perms {
+				var sb strings.Builder
+				sb.WriteString("JSIGHT 0.3\n")
+				for _, i := range p {
+					nm := names[i]
+					sb.WriteString("TYPE @" + nm + "\n{\n")
+					for k, r := range refs[nm] {
+						sb.WriteString(fmt.Sprintf("  \"r%d\": @%s, // {optional: true}\n", k, r))
+					}
+					switch i {
+					case a:
+						sb.WriteString("  \"x\": 5 // {min: 10}\n")
+					case b:
+						sb.WriteString("  \"y\": 6 // {min: 20}\n")
+					default:
+						sb.WriteString("  \"z\": 1\n")
+					}
+					sb.WriteString("}\n")
+				}
+				sb.WriteString("GET /u\n  200 @u\n")
+				n++
+				emit("faulty-type-cycle", singleJob(fmt.Sprintf("ftc-%d", n), []byte(sb.String()), false))
+			}
+		}
+	}
 }
